@@ -240,6 +240,7 @@ def entry_job(arg):
     seeds = canonical(common.valid_numbers(modname))
     if not seeds:
         return {'label': label, 'dist': dist, 'cases': 0, 'nontrivial': 0, 'sites': [], 'samples': []}
+    seeds = _chk.diverse(seeds)
     if tier == 'quick':
         seeds = seeds[:100]
         nsynth, cap = 600, 600
